@@ -3,4 +3,4 @@ Require Extraction.
 Require Import ExtrOcamlBasic.
 Require Import Base Cache.
 Extraction Language OCaml.
-Extraction "../ocaml/gen/c05_model.ml" chunk_of run_lint_code run_lint_fixed run_set_cfg run_evict fresh mkdoc mkclint code_key_eqb fixed_key_eqb.
+Extraction "../ocaml/gen/c05_model.ml" drv_doc_of rel_toks run_lint_code run_set_cfg run_evict fresh mkdoc mkclint code_key_eqb.
